@@ -1,43 +1,30 @@
-"""R32 structure of the worst-case-expectation reformulation (C03, C04).
+"""R32 structure of the worst-case-expectation (moment dual) reformulation (C03, C04).
 
-Structural necessary conditions of the moment dual in dro.Model.dro_to_roc and of the lifted
-ambiguity set in Ambiguity.mix_support (each one is a place where a one-token slip yields a
-different, silently accepted ambiguity set):
+mix_support lifts every expectation set into the probability-weighted (perspective) space:
+    for event e with scenario set I_e:   A_e v_e - (sum_{s in I_e} p_s) b_e   (senses of the set e)
+and dro_to_roc dualises the moment problem with alpha (one per scenario) and beta (one column per
+event): one support constraint over the *dual* lifted set, and for each scenario s the inequality
+    left_s <= alpha[s] + sum over the events k containing s of z' beta[:, k].
 
-mix_support
-  (a) expectation events and their scenario sets are paired by zip(self.exp_constr,
-      self.exp_constr_indices) in that order;
-  (b) the right-hand side of event k is scaled by the probability mass of exactly that event,
-      p[<indices of the same pair>].sum() * exp_support.const, and the rows keep
-      exp_support.sense; the probability block uses pro_support.linear / const / sense of one
-      formula;
-  (c) every formula embedded is the *primal* of its model (do_math(obj=False) without
-      primal=False) and the lifted model is returned through do_math(primal, obj=False).
-dro_to_roc
-  (d) one alpha (length num_scen) and one beta ((num_rand, num_event)) per constraint row; the
-      support constraint is  alpha @ p + sum_j var_exp_list[j][:num_rand] @ beta[:, j] <= 0
-      lowered with le_to_rc(mixed_support) where mixed_support = ambset.mix_support(primal=False);
-      the column index of beta and the index of var_exp_list are the same loop variable;
-  (e) the scenario inequality is  left <= alpha[s] (+ (z @ beta[:, event_indices]).sum())  with s
-      the scenario loop variable and event_indices the events whose member list contains s
-      (a comprehension over range(num_event) filtered by `s in ambset.exp_constr_indices[k]`).
+The rule locates each of these constructs structurally, expands single-definition locals, and
+compares it with a pattern (rules/common.pmatch):
+    equal up to consistent renaming   -> discharged
+    same shape, a leaf differs        -> finding   (the construct is recognised and says something else:
+                                         another index, another field, another constant, another operator)
+    other shape / construct not found -> ANALYSIS-ERROR (exit 2): the rule cannot judge a restructured
+                                         function and says so instead of guessing.
 """
 import ast
 
-from .common import (AnalysisError, Finding, RuleResult, ntext, walk_no_nested, call_name, accum)
+from rsx.ctor import bind_args
+from .common import (AnalysisError, Finding, RuleResult, ntext, walk_no_nested, call_name, accum,
+                     single_defs, expand_locals, best_match)
 
 RULE = 'R32'
 TEXT = ('mix_support pairs each expectation set with its own scenario set and scales it by that '
         'event\'s probability mass; dro_to_roc uses one alpha/beta per row, the dual support, and '
         'per-scenario inequalities over exactly the events containing the scenario')
 P = {'props': ['C03', 'C04']}
-
-
-def _kw(call, name):
-    for k in call.keywords:
-        if k.arg == name:
-            return k.value
-    return None
 
 
 def run(repo):
@@ -47,154 +34,259 @@ def run(repo):
     dr = repo.func('dro.Model.dro_to_roc')
     res.functions.update([ms.fq, dr.fq])
 
-    def rec(fi, key, ok, msg):
+    def rec(fi, key, ok, msg, node=None):
         res.inst({'function': fi.fq, 'check': key, 'ok': ok}, ok)
         if not ok:
-            res.fail(Finding(RULE, fi.fq, key, '%s: %s' % (fi.fq, msg), repo.where(fi), P))
+            res.fail(Finding(RULE, fi.fq, key, '%s: %s' % (fi.fq, msg), repo.where(fi, node), P))
+
+    def judge(fi, key, node, patterns, msg, binds_check=None):
+        """match -> ok; leaf difference -> finding; other shape -> blind"""
+        st, b, diffs = best_match(patterns, node)
+        if st == 'shape':
+            raise AnalysisError('R32 %s: `%s` has a form the rule does not interpret (%s)'
+                                % (key, ntext(node)[:80], '; '.join(diffs[:2])))
+        ok = st == 'match'
+        if ok and binds_check is not None:
+            extra = binds_check(b)
+            if extra:
+                ok = False
+                diffs = [extra]
+        rec(fi, key, ok, '%s (found `%s`: %s)' % (msg, ntext(node)[:90], '; '.join(diffs[:3])), node)
+        return b
 
     # ------------------------------------------------------------------ mix_support
-    loop = None
-    for n in walk_no_nested(ms.node):
-        if isinstance(n, ast.For) and isinstance(n.iter, ast.Call) and call_name(n.iter) == 'zip':
-            loop = n
-    if loop is None or not isinstance(loop.target, ast.Tuple) or len(loop.target.elts) != 2:
-        raise AnalysisError('mix_support: loop over zip(exp_constr, exp_constr_indices) not found')
-    zargs = [ntext(a) for a in loop.iter.args]
-    rec(ms, 'events paired with their scenario sets',
-        zargs == ['self.exp_constr', 'self.exp_constr_indices'],
-        'the expectation sets and their scenario sets are paired by zip(%s); it must be '
-        'zip(self.exp_constr, self.exp_constr_indices)' % ', '.join(zargs))
-    ev_name, idx_name = ntext(loop.target.elts[0]), ntext(loop.target.elts[1])
+    mdefs = single_defs(ms.node)
+
+    def mx(e):
+        return expand_locals(ms.node, e, depth=4, defs=mdefs)
+
+    loops = [n for n in walk_no_nested(ms.node) if isinstance(n, ast.For) and isinstance(n.iter, ast.Call)
+             and call_name(n.iter) == 'zip']
+    if len(loops) != 1 or not isinstance(loops[0].target, ast.Tuple) or len(loops[0].target.elts) != 2 \
+            or not all(isinstance(e, ast.Name) for e in loops[0].target.elts):
+        raise AnalysisError('mix_support: the loop `for <set>, <scenarios> in zip(..)` over the expectation '
+                            'events was not found')
+    loop = loops[0]
+    ev_name, idx_name = loop.target.elts[0].id, loop.target.elts[1].id
+    judge(ms, 'events paired with their scenario sets', mx(loop.iter),
+          ['zip(self.exp_constr, self.exp_constr_indices)'],
+          'the expectation sets and their scenario sets must be paired by zip(self.exp_constr, '
+          'self.exp_constr_indices)')
     body = ast.Module(body=loop.body, type_ignores=[])
-    st_args = [ntext(n.args[0]) for n in ast.walk(body) if isinstance(n, ast.Call)
-               and ntext(n.func).endswith('exp_model.st') and n.args]
-    rec(ms, 'each expectation set is defined from its own constraints', st_args == [ev_name],
-        'exp_model.st(..) receives %s instead of the loop\'s own constraint tuple `%s`' % (st_args, ev_name))
-    # scaling term
-    scal = [n for n in ast.walk(body) if isinstance(n, ast.BinOp) and isinstance(n.op, ast.Mult)
-            and 'exp_support.const' in ntext(n) and '.sum()' in ntext(n)]
-    if len(scal) != 1:
-        raise AnalysisError('mix_support: the perspective term p[..].sum() * exp_support.const was not found')
-    t = scal[0]
-    mass = t.left if 'const' in ntext(t.right) else t.right
-    ok = isinstance(mass, ast.Call) and isinstance(mass.func, ast.Attribute) and mass.func.attr == 'sum' and \
-        isinstance(mass.func.value, ast.Subscript) and ntext(mass.func.value.slice) == idx_name and \
-        ntext(mass.func.value.value) == 'p'
-    rec(ms, 'perspective scaling by the event\'s own probability mass', ok,
-        'the constants of an expectation set are scaled by `%s`; it must be p[%s].sum(), the probability '
-        'mass of exactly the scenarios of that event' % (ntext(mass), idx_name))
-    # sign: linear @ exp_var - mass * const
-    par = {}
-    for n in ast.walk(body):
-        for c in ast.iter_child_nodes(n):
-            par[id(c)] = n
-    up = par.get(id(t))
-    ok = isinstance(up, ast.BinOp) and isinstance(up.op, ast.Sub) and up.right is t and \
-        'exp_support.linear' in ntext(up.left)
-    rec(ms, 'lifted rows are  linear @ v - mass * const', ok,
-        'the lifted rows must be exp_support.linear @ exp_var - p[..].sum() * exp_support.const '
-        '(found `%s`)' % (ntext(up)[:70] if up is not None else '?'))
+    st_calls = [n for n in ast.walk(body) if isinstance(n, ast.Call) and isinstance(n.func, ast.Attribute)
+                and n.func.attr == 'st' and 'exp_model' in ntext(mx(n.func.value)) and n.args]
+    if len(st_calls) != 1:
+        raise AnalysisError('mix_support: expected one <exp_model>.st(..) in the event loop, found %d' % len(st_calls))
+    a0 = mx(st_calls[0].args[0])
+    if not isinstance(a0, ast.Name):
+        raise AnalysisError('mix_support: exp_model.st(%s): argument not interpreted' % ntext(a0)[:40])
+    rec(ms, 'each expectation set is defined from its own constraints', a0.id == ev_name,
+        'exp_model.st(..) receives `%s` instead of the loop\'s own constraint tuple `%s`' % (a0.id, ev_name),
+        st_calls[0])
+    # lifted rows
+    subs = [n for n in ast.walk(body) if isinstance(n, ast.BinOp) and isinstance(n.op, (ast.Sub, ast.Add))
+            and '.const' in ntext(mx(n)) and '.linear' in ntext(mx(n)) and '@' in ntext(mx(n))]
+    subs = [n for n in subs if not any(n is not m and any(x is n for x in ast.walk(m)) for m in subs)]
+    if len(subs) != 1:
+        raise AnalysisError('mix_support: the lifted rows  <A> @ v - p[..].sum() * <b>  were not found')
+    lifted = mx(subs[0])
+
+    def chk(b):
+        if b['_i'][1] != idx_name:
+            return 'the probability mass sums p over `%s`, not over the event\'s own scenario set `%s`' \
+                % (b['_i'][1], idx_name)
+        return None
+    from .common import pmatch
+    for bad, why in (('_L.linear @ _v - _nmp.sum() * _L.const', 'the total probability mass of all scenarios'),
+                     ('_L.linear @ _v - _nmp[_i[__]] * _L.const', 'the probability of a single scenario'),
+                     ('_L.linear @ _v - _nmp[__] * _L.const', 'the probability of a single scenario / an unsummed slice'),
+                     ('_L.linear @ _v - _L.const', 'no probability mass at all')):
+        if pmatch(bad, lifted)[0] == 'match' or pmatch(bad, subs[0])[0] == 'match':
+            rec(ms, 'lifted rows are  A v - (sum of the event\'s p) b', False,
+                'the constants of an expectation set are scaled by %s; they must be scaled by p[%s].sum(), the '
+                'mass of exactly the scenarios of that event (found `%s`)' % (why, idx_name, ntext(subs[0])[:80]),
+                subs[0])
+            lifted = None
+            break
+    b = {} if lifted is None else judge(ms, 'lifted rows are  A v - (sum of the event\'s p) b', lifted,
+              ['_L.linear @ _v - _p[_i].sum() * _L.const', '_L.linear @ _v - _L.const * _p[_i].sum()'],
+              'the lifted rows of an expectation set must be  <set>.linear @ v - p[<event scenarios>].sum() * '
+              '<set>.const', chk)
     lin = [n for n in ast.walk(body) if isinstance(n, ast.Call) and call_name(n) == 'LinConstr']
-    ok = len(lin) == 1 and len(lin[0].args) == 4 and ntext(lin[0].args[3]) == 'exp_support.sense'
-    rec(ms, 'lifted rows keep the senses of the expectation set', ok,
-        'the LinConstr of an expectation block must take exp_support.sense')
+    if len(lin) != 1 or len(lin[0].args) != 4:
+        raise AnalysisError('mix_support: the LinConstr(.., sense) of the expectation block was not found')
+    sense = mx(lin[0].args[3])
+    if lifted is None:
+        pass
+    elif '_L' in b and isinstance(sense, ast.Attribute):
+        ok = sense.attr == 'sense' and ntext(sense.value) == b['_L'][0]
+        rec(ms, 'lifted rows keep the senses of the expectation set', ok,
+            'the LinConstr of an expectation block takes `%s` as senses; it must be the .sense of the set whose '
+            'rows it lifts (%s)' % (ntext(sense)[:60], b['_L'][1][:50]), lin[0])
+    elif isinstance(sense, ast.Call) and call_name(sense) in ('np.zeros', 'np.ones', 'numpy.zeros', 'numpy.ones'):
+        rec(ms, 'lifted rows keep the senses of the expectation set', False,
+            'the LinConstr of an expectation block takes the constant vector `%s` as senses: equalities / '
+            'inequalities of the expectation set are no longer told apart' % ntext(lin[0].args[3])[:50], lin[0])
+    else:
+        raise AnalysisError('mix_support: sense argument `%s` not interpreted' % ntext(sense)[:50])
     pl = [n for n in walk_no_nested(ms.node) if isinstance(n, ast.Call) and call_name(n) == 'LinConstr'
-          and 'pro_support' in ntext(n)]
-    ok = len(pl) == 1 and [ntext(a) for a in pl[0].args[1:]] == ['pro_support.linear', 'pro_support.const',
-                                                                 'pro_support.sense']
-    rec(ms, 'probability block copies linear / const / sense of one formula', ok,
-        'the probability block must be LinConstr(mix_model, pro_support.linear, pro_support.const, '
-        'pro_support.sense)')
-    # (c) primal formulas embedded, lifted model returned with the requested side
+          and not any(n is x for x in ast.walk(body))]
+    if len(pl) != 1:
+        raise AnalysisError('mix_support: the LinConstr of the probability block was not found')
+    judge(ms, 'probability block copies linear / const / sense of one formula', mx(pl[0]),
+          ['LinConstr(__, _S.linear, _S.const, _S.sense)'],
+          'the probability block must be LinConstr(mix_model, S.linear, S.const, S.sense) of one formula S')
+    # embedded formulas are primal, without objective; the lifted model is returned on the requested side
     emb = [n for n in walk_no_nested(ms.node) if isinstance(n, ast.Call) and isinstance(n.func, ast.Attribute)
-           and n.func.attr == 'do_math' and ('pro_model' in ntext(n.func) or 'exp_model' in ntext(n.func))]
-    ok = len(emb) == 2 and all(_kw(c, 'primal') is None and not c.args and
-                               isinstance(_kw(c, 'obj'), ast.Constant) and _kw(c, 'obj').value is False for c in emb)
-    rec(ms, 'embedded formulas are primal, without objective', ok,
-        'pro_model / exp_model must be embedded through do_math(obj=False) (the primal standard form)')
+           and n.func.attr == 'do_math' and ('pro_model' in ntext(mx(n.func.value)) or
+                                              'exp_model' in ntext(mx(n.func.value)))]
+    if len(emb) != 2:
+        raise AnalysisError('mix_support: expected the do_math() of pro_model and of exp_model, found %d' % len(emb))
+    dm = repo.func('gcp.Model.do_math')
+    for c in emb:
+        env = bind_args(dm, c) or {}
+        pr, ob = env.get('primal'), env.get('obj')
+        if not isinstance(pr, ast.Constant) or not isinstance(ob, ast.Constant):
+            raise AnalysisError('mix_support: arguments of `%s` not interpreted' % ntext(c)[:60])
+        rec(ms, 'embedded formula `%s` is primal, without objective' % ntext(c.func.value)[-20:],
+            pr.value is True and ob.value is False,
+            '`%s` must be do_math(obj=False), the primal standard form without objective' % ntext(c)[:70], c)
     rets = [n.value for n in walk_no_nested(ms.node) if isinstance(n, ast.Return) and n.value is not None]
-    ok = bool(rets) and all(isinstance(r, ast.Call) and ntext(r.func) == 'self.mix_model.do_math' and r.args
-                            and ntext(r.args[0]) == 'primal' and isinstance(_kw(r, 'obj'), ast.Constant)
-                            and _kw(r, 'obj').value is False for r in rets)
-    rec(ms, 'lifted model returned as do_math(primal, obj=False)', ok,
-        'every return of mix_support must be self.mix_model.do_math(primal, obj=False)')
+    if not rets:
+        raise AnalysisError('mix_support: no return')
+    for r in rets:
+        judge(ms, 'lifted model returned on the requested side, without objective', mx(r),
+              ['self.mix_model.do_math(primal, obj=False)'],
+              'every return of mix_support must be self.mix_model.do_math(primal, obj=False)')
+
     # ------------------------------------------------------------------ dro_to_roc
-    binds = {}
-    for n in walk_no_nested(dr.node):
-        if isinstance(n, ast.Assign) and len(n.targets) == 1 and isinstance(n.targets[0], ast.Name):
-            binds.setdefault(n.targets[0].id, []).append(n.value)
-    for nm in ('mixed_support', 'ambset', 'alpha', 'beta', 'left', 'right', 'event_indices', 'inequality'):
-        if nm not in binds:
-            raise AnalysisError('dro_to_roc: the local `%s` the rule anchors on no longer exists '
-                                '(renamed or restructured): cannot judge' % nm)
-    msup = binds.get('mixed_support', [])
-    ok = len(msup) == 1 and isinstance(msup[0], ast.Call) and ntext(msup[0].func) == 'ambset.mix_support' and \
-        isinstance(_kw(msup[0], 'primal'), ast.Constant) and _kw(msup[0], 'primal').value is False
-    rec(dr, 'the dual of the lifted set is used', ok,
-        'mixed_support must be ambset.mix_support(primal=False): le_to_rc needs the dual standard form')
-    amb = binds.get('ambset', [])
-    ok = len(amb) == 1 and 'constr.ambset' in ntext(amb[0]) and 'self.obj_ambiguity' in ntext(amb[0])
-    rec(dr, 'ambiguity set: the constraint\'s own, else the default', ok,
-        'ambset must be the constraint\'s own set when it has one and self.obj_ambiguity otherwise')
-    al = binds.get('alpha', [])
-    be = [b for b in binds.get('beta', []) if isinstance(b, ast.Call)]
-    ok = len(al) == 1 and 'num_scen' in ntext(al[0]) and len(be) == 1 and \
-        ntext(be[0].args[0]).replace(' ', '') == '(num_rand,num_event)'
-    rec(dr, 'alpha has one entry per scenario, beta is (num_rand, num_event)', ok,
-        'alpha must be dvar(num_scen) and beta dvar((num_rand, num_event)) (found %s / %s)'
-        % ([ntext(a) for a in al], [ntext(b) for b in be]))
-    # support constraint
-    sup_calls = [n for n in walk_no_nested(dr.node) if isinstance(n, ast.Call) and isinstance(n.func, ast.Attribute)
-                 and n.func.attr == 'le_to_rc']
-    ok = len(sup_calls) == 1 and ntext(sup_calls[0].args[0]) == 'mixed_support' and \
-        ntext(sup_calls[0].func.value).replace(' ', '') in ('left<=0', '(left<=0)')
-    rec(dr, 'support constraint: (left <= 0).le_to_rc(mixed_support)', ok,
-        'the moment-dual support constraint must be (left <= 0).le_to_rc(mixed_support)')
-    first_left = [v for v in binds.get('left', []) if ntext(v) == 'alpha @ p']   # noqa
-    rec(dr, 'support constraint starts from alpha @ p', len(first_left) == 1,
-        'the support constraint must start from alpha @ p')
-    augs = [n for n in walk_no_nested(dr.node) if (accum(n) or (None,))[0] == 'left']
-    augs = [n for n in augs if 'beta' in ntext(accum(n)[1])]
-    if len(augs) != 1:
-        raise AnalysisError('dro_to_roc: expected one accumulation of the beta terms into `left`, found %d' % len(augs))
-    ok = False
-    if len(augs) == 1:
-        v = accum(augs[0])[1]
-        jvar = None
-        for n in walk_no_nested(dr.node):
-            if isinstance(n, ast.For) and any(x is augs[0] for x in n.body) and 'num_event' in ntext(n.iter):
-                jvar = ntext(n.target)
-        ok = jvar is not None and isinstance(v, ast.BinOp) and isinstance(v.op, ast.MatMult) and \
-            ntext(v.left) == 'var_exp_list[%s][:num_rand]' % jvar and ntext(v.right) == 'beta[:, %s]' % jvar
-    rec(dr, 'event j: var_exp_list[j][:num_rand] @ beta[:, j] with one index', ok,
-        'each expectation event must contribute var_exp_list[j][:num_rand] @ beta[:, j] with the same j '
-        'ranging over range(num_event)')
-    # scenario inequality
-    rights = binds.get('right', [])
-    sloops = [n for n in walk_no_nested(dr.node) if isinstance(n, ast.For) and ntext(n.iter) in
-              ('range(num_scen)', 'range(self.num_scen)')]
-    if not sloops or not rights:
-        raise AnalysisError('dro_to_roc: scenario loop / right-hand side not found')
-    svar = ntext(sloops[0].target)
-    # definitions of `right`: every non-accumulating one starts from alpha[s]; the beta term is added in
-    # a definition or in an accumulation  right = right + ..
-    r_acc = [accum(n)[1] for n in walk_no_nested(dr.node) if (accum(n) or (None,))[0] == 'right']
-    r_base = [r for r in rights if not (isinstance(r, ast.BinOp) and any(r.right is a or r.left is a for a in r_acc))]
-    ok = bool(r_base) and all(('alpha[%s]' % svar) in ntext(r) for r in r_base) and \
-        any('beta[:, event_indices]' in ntext(r) for r in r_base + r_acc)
-    rec(dr, 'scenario inequality uses alpha[s] (+ z @ beta[:, event_indices])', ok,
-        'the right-hand sides %s must be alpha[%s] plus, when the scenario belongs to expectation events, '
-        '(z @ beta[:, event_indices]).sum()' % ([ntext(r) for r in rights], svar))
-    ev = binds.get('event_indices', [])
-    ok = len(ev) == 1 and isinstance(ev[0], ast.ListComp) and 'range(num_event)' in ntext(ev[0].generators[0].iter) \
-        and len(ev[0].generators[0].ifs) == 1 and \
-        ntext(ev[0].generators[0].ifs[0]) == '%s in ambset.exp_constr_indices[%s]' % (svar, ntext(ev[0].generators[0].target)) \
-        and ntext(ev[0].elt) == ntext(ev[0].generators[0].target)
-    rec(dr, 'event_indices = all events whose member list contains s', ok,
-        'event_indices must be [k for k in range(num_event) if %s in ambset.exp_constr_indices[k]] '
-        '(found %s)' % (svar, [ntext(e)[:70] for e in ev]))
-    ineq = binds.get('inequality', [])
-    ok = len(ineq) == 1 and ntext(ineq[0]).replace(' ', '') == 'left<=right'
-    rec(dr, 'scenario inequality is left <= right', ok,
-        'the per-scenario inequality must be left <= right (found %s)' % [ntext(i) for i in ineq])
+    ddefs = single_defs(dr.node)
+
+    def dx(e):
+        return expand_locals(dr.node, e, depth=4, defs=ddefs)
+
+    # support constraint over the dual lifted set
+    sup = [n for n in walk_no_nested(dr.node) if isinstance(n, ast.Call) and isinstance(n.func, ast.Attribute)
+           and n.func.attr == 'le_to_rc']
+    if len(sup) != 1 or len(sup[0].args) != 1:
+        raise AnalysisError('dro_to_roc: the support constraint (..).le_to_rc(<lifted set>) was not found')
+    setarg = dx(sup[0].args[0])
+    if not (isinstance(setarg, ast.Call) and isinstance(setarg.func, ast.Attribute) and
+            setarg.func.attr == 'mix_support'):
+        raise AnalysisError('dro_to_roc: le_to_rc(%s): the lifted set is not a mix_support(..) call'
+                            % ntext(setarg)[:50])
+    env = bind_args(ms, setarg) or {}
+    pr = env.get('primal')
+    if not isinstance(pr, ast.Constant):
+        raise AnalysisError('dro_to_roc: mix_support(%s) not interpreted' % ntext(pr)[:30])
+    rec(dr, 'the dual of the lifted set is used', pr.value is False,
+        'the lifted set handed to le_to_rc must be mix_support(primal=False): le_to_rc needs the dual '
+        'standard form (found `%s`)' % ntext(setarg)[:60], sup[0])
+    amb = setarg.func.value
+    if isinstance(amb, ast.Name):
+        defs = [ntext(n.value) for n in walk_no_nested(dr.node) if isinstance(n, ast.Assign)
+                and any(isinstance(t, ast.Name) and t.id == amb.id for t in n.targets)]
+        if not defs or not all(d.startswith(('constr.', 'self.')) for d in defs):
+            raise AnalysisError('dro_to_roc: definitions of the ambiguity set `%s` not interpreted: %s'
+                                % (amb.id, defs))
+        ok = sorted(defs) == ['constr.ambset', 'self.obj_ambiguity']
+        rec(dr, 'ambiguity set: the constraint\'s own, else the default', ok,
+            'the ambiguity set must be the constraint\'s own (constr.ambset) when it has one and '
+            'self.obj_ambiguity otherwise (found %s)' % defs)
+    recv = sup[0].func.value
+    judge(dr, 'support constraint is  (left <= 0).le_to_rc(..)', recv, ['_l <= 0'],
+          'the moment-dual support constraint must be (left <= 0)')
+    left_name = recv.left.id if isinstance(recv, ast.Compare) and isinstance(recv.left, ast.Name) else None
+    if left_name is None:
+        raise AnalysisError('dro_to_roc: left-hand side of the support constraint is not a local')
+    line = sup[0].lineno
+    base = [n for n in walk_no_nested(dr.node) if isinstance(n, ast.Assign) and len(n.targets) == 1 and
+            ntext(n.targets[0]) == left_name and n.lineno < line and accum(n) is None]
+    accs = [n for n in walk_no_nested(dr.node) if (accum(n) or (None,))[0] == left_name and n.lineno < line]
+    if len(base) != 1 or len(accs) != 1:
+        raise AnalysisError('dro_to_roc: expected `%s = <alpha> @ p` and one accumulation over the events '
+                            'before the support constraint (found %d / %d)' % (left_name, len(base), len(accs)))
+    bb = judge(dr, 'support constraint starts from alpha @ p', base[0].value, ['_alpha @ _p'],
+               'the support constraint must start from alpha @ p')
+    jloop = [n for n in walk_no_nested(dr.node) if isinstance(n, ast.For) and any(x is accs[0] for x in n.body)]
+    if len(jloop) != 1 or not isinstance(jloop[0].target, ast.Name):
+        raise AnalysisError('dro_to_roc: the loop over the events around `%s` was not found' % ntext(accs[0])[:50])
+    jv = jloop[0].target.id
+
+    def chk_j(b):
+        if b['_j'][1] != jv:
+            return 'the event index is `%s`, not the loop variable `%s`' % (b['_j'][1], jv)
+        return None
+    bj = judge(dr, 'event j contributes  E_j[:n] @ beta[:, j]  with one index', accum(accs[0])[1],
+               ['_V[_j][:__] @ _B[:, _j]'],
+               'each expectation event must contribute var_exp_list[j][:num_rand] @ beta[:, j] with the same j',
+               chk_j)
+    it = dx(jloop[0].iter)
+    if not (isinstance(it, ast.Call) and call_name(it) == 'range' and len(it.args) == 1):
+        raise AnalysisError('dro_to_roc: event loop iterates `%s`' % ntext(it)[:40])
+    rec(dr, 'the event loop covers every expectation event', 'exp_constr' in ntext(it.args[0]),
+        'the loop adding the beta terms runs over range(%s), not over the number of expectation events '
+        '(len(<ambiguity set>.exp_constr))' % ntext(it.args[0])[:50], jloop[0])
+    # per-scenario inequality
+    foralls = [n for n in walk_no_nested(dr.node) if isinstance(n, ast.Call) and isinstance(n.func, ast.Attribute)
+               and n.func.attr == 'forall']
+    sloops = [n for n in walk_no_nested(dr.node) if isinstance(n, ast.For) and isinstance(n.target, ast.Name)
+              and 'num_scen' in ntext(dx(n.iter)) and any(any(f is x for x in ast.walk(n)) for f in foralls)]
+    if len(sloops) != 1:
+        raise AnalysisError('dro_to_roc: the loop over the scenarios (range(num_scen)) around .forall(..) '
+                            'was not found')
+    sv = sloops[0].target.id
+    ineqs = [n for n in ast.walk(sloops[0]) if isinstance(n, ast.Compare) and len(n.ops) == 1 and
+             isinstance(n.ops[0], (ast.LtE, ast.GtE)) and isinstance(n.left, ast.Name) and
+             isinstance(n.comparators[0], ast.Name)]
+    if len(ineqs) != 1:
+        raise AnalysisError('dro_to_roc: the per-scenario inequality `left <= right` was not found')
+    rec(dr, 'scenario inequality is left <= right', isinstance(ineqs[0].ops[0], ast.LtE),
+        'the per-scenario inequality must be left <= right (found `%s`)' % ntext(ineqs[0]), ineqs[0])
+    rname = ineqs[0].comparators[0].id
+    rdefs = [n for n in ast.walk(sloops[0]) if isinstance(n, ast.Assign) and ntext(n.targets[0]) == rname]
+    if not rdefs:
+        raise AnalysisError('dro_to_roc: definitions of `%s` not found' % rname)
+    alpha_txt = bb['_alpha'][1] if '_alpha' in bb else 'alpha'
+    beta_txt = bj['_B'][1] if '_B' in bj else 'beta'
+    ev_var = None
+    saw_beta = False
+    for d in rdefs:
+        a = accum(d)
+        v = a[1] if a is not None else d.value
+        pats = ['(_z @ %s[:, _ev]).sum()' % beta_txt] if a is not None else \
+            ['%s[_s] + (_z @ %s[:, _ev]).sum()' % (alpha_txt, beta_txt), '%s[_s]' % alpha_txt]
+
+        def chk_s(b):
+            if '_s' in b and b['_s'][1] != sv:
+                return 'alpha is indexed by `%s`, not by the scenario `%s`' % (b['_s'][1], sv)
+            return None
+        br = judge(dr, 'right-hand side of the scenario inequality (%s)' % ('added term' if a is not None else 'definition %d' % rdefs.index(d)), v, pats,
+                   'the right-hand side of scenario s must be alpha[s], plus (z @ beta[:, <events of s>]).sum() '
+                   'when s belongs to expectation events', chk_s)
+        if '_ev' in br:
+            saw_beta = True
+            ev_var = br['_ev'][2]
+    if not saw_beta:
+        raise AnalysisError('dro_to_roc: no right-hand side adds the beta term')
+    evdef = dx(ev_var) if ev_var is not None else None
+    if not isinstance(evdef, ast.ListComp):
+        raise AnalysisError('dro_to_roc: the events of a scenario (`%s`) are not given by a list comprehension'
+                            % (ntext(ev_var)[:40] if ev_var is not None else '?'))
+
+    def chk_ev(b):
+        if b['_s'][1] != sv:
+            return 'membership is tested for `%s`, not for the scenario `%s`' % (b['_s'][1], sv)
+        return None
+    judge(dr, 'events of scenario s = all events whose member list contains s', evdef,
+          ['[_k for _k in range(__) if _s in _A.exp_constr_indices[_k]]'],
+          'the events of a scenario must be [k for k in range(num_event) if s in ambset.exp_constr_indices[k]]',
+          chk_ev)
+    for f in foralls:
+        if any(f is x for x in ast.walk(sloops[0])):
+            a = f.args[0] if f.args else None
+            if a is None:
+                raise AnalysisError('dro_to_roc: forall() without argument')
+            judge(dr, 'scenario inequality holds over the scenario\'s own support', a, ['_A.sup_constr[%s]' % sv],
+                  'the per-scenario robust inequality must be taken .forall(ambset.sup_constr[%s])' % sv)
     return res
